@@ -241,3 +241,11 @@ reg("C18",
                      "the roughness length itself has no slot in the file; the statement is read for the four per-step fields",
                      "a result dict whose key order differs from the config's tower order mis-attaches metadata: outside the documented input (drivers return config order, C14)"],
     assumptions=["result keys are the configuration's tower names in configuration order", "tower names distinct, time labels distinct"])
+
+DRIVER_TABLES = T("Proofs.Bridge.Tables", "BLDFM.Bridge", ["table_driver_run_bldfm_timeseries", "table_driver_run_bldfm_multitower", "table_driver_worker_single",
+                                                           "table_driver_worker_timeseries", "table_driver_run_bldfm_parallel", "table_driver_make_cache"], "bridge")
+REGISTRY["C14"]["theorems"] += DRIVER_TABLES
+REGISTRY["C14"]["kernel_groups"].append("Tables")
+for _p in ("C11", "C06", "C03", "C02"):
+    REGISTRY[_p]["theorems"] += T("Proofs.Bridge.Tables", "BLDFM.Bridge", ["table_solverPlumbing"], "bridge")
+    REGISTRY[_p]["kernel_groups"].append("Tables")
